@@ -205,7 +205,7 @@ def _progs():
     def g_tri(rng):
         s = rshape(rng); sh = [s, bpartner(rng, s), bpartner(rng, s)]; rng.shuffle(sh); return sh, P()
     add('mul_add', 4, 2, lambda A, p: (A[0] + A[1]) * A[2], g_tri, data='small', bview=True)
-    add('add_mul2', 4, 2, lambda A, p: A[0] + A[1] * A[2], g_tri, nonfirst=True)
+    add('add_mul2', 7, 2, lambda A, p: A[0] + A[1] * A[2], g_tri, nonfirst=True)
     def g_sum_mul(rng):
         s = rshape(rng, min_rank=2); t = bpartner(rng, s); return [s, t], P(axis=rng.randrange(len(s)))
     add('sum_mul', 4, 2, lambda A, p: np.sum(A[0] * A[1], axis=p['axis']), g_sum_mul)
@@ -217,24 +217,24 @@ def _progs():
     add('add_tr', 4, 2, lambda A, p: np.transpose(A[0], p['axes']) + A[1], g_add_tr, bview=True)
     def g_add_sum(rng):
         s = rshape(rng, min_rank=2); return [bpartner(rng, s), s], P(axis=rng.randrange(len(s)))
-    add('add_sum', 4, 2, lambda A, p: A[0] + np.sum(A[1], axis=p['axis'], keepdims=True), g_add_sum, nonfirst=True)
+    add('add_sum', 7, 2, lambda A, p: A[0] + np.sum(A[1], axis=p['axis'], keepdims=True), g_add_sum, nonfirst=True)
     def g_sum_add(rng):
         s = rshape(rng, min_rank=2); return [s, bpartner(rng, s)], P(axis=rng.randrange(len(s)))
     add('sum_add', 4, 2, lambda A, p: np.sum(A[0], axis=p['axis'], keepdims=True) + A[1], g_sum_add, bview=True)
     def g_cumsum_tr(rng):
         s = rshape(rng); return [s], P(axes=perm(rng, len(s)), axis=rng.randrange(len(s)))
-    add('cumsum_tr', 4, 2, lambda A, p: np.cumsum(np.transpose(A[0], p['axes']), axis=p['axis']), g_cumsum_tr)
-    add('flip_neg', 4, 2, lambda A, p: np.flip(-A[0], p['axis']), g_axis1)
+    add('cumsum_tr', 7, 2, lambda A, p: np.cumsum(np.transpose(A[0], p['axes']), axis=p['axis']), g_cumsum_tr)
+    add('flip_neg', 7, 2, lambda A, p: np.flip(-A[0], p['axis']), g_axis1)
     def g_sum_tr(rng):
         s = rshape(rng, min_rank=2); return [s], P(axes=perm(rng, len(s)), axis=rng.randrange(len(s)))
-    add('sum_tr', 4, 2, lambda A, p: np.sum(np.transpose(A[0], p['axes']), axis=p['axis']), g_sum_tr)
+    add('sum_tr', 7, 2, lambda A, p: np.sum(np.transpose(A[0], p['axes']), axis=p['axis']), g_sum_tr)
     def g_tile_add(rng):
         s = rshape(rng, cap=12); r = [rng.randint(1, 2) for _ in range(rng.randint(1, min(3, len(s) + 1)))]
         return [s, bpartner(rng, s)], P(reps=r)
-    add('tile_add', 4, 2, lambda A, p: np.tile(A[0] + A[1], p['reps']), g_tile_add)
+    add('tile_add', 7, 2, lambda A, p: np.tile(A[0] + A[1], p['reps']), g_tile_add)
     def g_cumsum_mul(rng):
         s = rshape(rng); return [s, bpartner(rng, s)], P(axis=rng.randrange(len(s)))
-    add('cumsum_mul', 4, 2, lambda A, p: np.cumsum(A[0] * A[1], axis=p['axis']), g_cumsum_mul)
+    add('cumsum_mul', 7, 2, lambda A, p: np.cumsum(A[0] * A[1], axis=p['axis']), g_cumsum_mul)
     # ---- depth 3 ----
     def g_asm(rng):
         s = rshape(rng, min_rank=2); return [s, bpartner(rng, s), bpartner(rng, s)], P(axis=rng.randrange(len(s)))
@@ -242,21 +242,21 @@ def _progs():
     def g_quad(rng):
         s = rshape(rng); sh = [s, bpartner(rng, s), bpartner(rng, s), bpartner(rng, s)]; rng.shuffle(sh); return sh, P()
     add('max_add_mul', 5, 3, lambda A, p: np.maximum(A[0] * A[1] + A[2], A[3]), g_quad, bview=True)
-    add('neg_sub_max', 5, 3, lambda A, p: -(A[0] - np.max(A[0], axis=p['axis'], keepdims=True)), g_axis2, nonfirst=True)
+    add('neg_sub_max', 8, 3, lambda A, p: -(A[0] - np.max(A[0], axis=p['axis'], keepdims=True)), g_axis2, nonfirst=True)
     add('neg_max_sub', 5, 3, lambda A, p: -(np.max(A[0], axis=p['axis'], keepdims=True) - A[0]), g_axis2, bview=True)
     add('neg_add_mul', 5, 3, lambda A, p: -(A[0] * A[1] + A[2]), g_tri, bview=True)
     add('tr_neg_add', 5, 3, lambda A, p: np.transpose(-(A[0] + A[1]), p['axes']), g_tr_add)
     def g_stm(rng):
         s = rshape(rng, min_rank=2); return [s, bpartner(rng, s)], P(axes=perm(rng, len(s)), axis=rng.randrange(len(s)))
-    add('sum_tr_mul', 5, 3, lambda A, p: np.sum(np.transpose(A[0] * A[1], p['axes']), axis=p['axis']), g_stm)
+    add('sum_tr_mul', 8, 3, lambda A, p: np.sum(np.transpose(A[0] * A[1], p['axes']), axis=p['axis']), g_stm)
     def g_ftt(rng):
         s = rshape(rng, cap=12); r = [rng.randint(1, 2) for _ in range(len(s))]
         return [s], P(axes=perm(rng, len(s)), reps=r, axis=rng.randrange(len(s)))
-    add('flip_tile_tr', 5, 3, lambda A, p: np.flip(np.tile(np.transpose(A[0], p['axes']), p['reps']), p['axis']), g_ftt)
-    add('neg_sum_mul', 5, 3, lambda A, p: -np.sum(A[0] * A[1], axis=p['axis'], keepdims=True), g_sum_mul)
+    add('flip_tile_tr', 8, 3, lambda A, p: np.flip(np.tile(np.transpose(A[0], p['axes']), p['reps']), p['axis']), g_ftt)
+    add('neg_sum_mul', 8, 3, lambda A, p: -np.sum(A[0] * A[1], axis=p['axis'], keepdims=True), g_sum_mul)
     def g_rta(rng):
         s = rshape(rng, cap=16); return [s, bpartner(rng, s)], P(axes=perm(rng, len(s)), r=rng.randint(1, 3), axis=rng.randrange(len(s)))
-    add('rep_tr_add', 5, 3, lambda A, p: np.repeat(np.transpose(A[0] + A[1], p['axes']), p['r'], p['axis']), g_rta)
+    add('rep_tr_add', 8, 3, lambda A, p: np.repeat(np.transpose(A[0] + A[1], p['axes']), p['r'], p['axis']), g_rta)
     # ---- column-major leaves (known finding kernel.colmajor-operand) ----
     add('transpose_col', 6, 1, lambda A, p: np.transpose(A[0], p['axes']), g_transpose, layout='col')
     add('add_col', 6, 1, lambda A, p: A[0] + A[1], g_bin, layout='col')
@@ -264,7 +264,7 @@ def _progs():
 
 
 PROGS = _progs()
-GROUPS = [1, 2, 3, 4, 5, 6]
+GROUPS = [1, 2, 3, 4, 5, 6, 7, 8]
 
 
 def harness_specs(tier):
